@@ -19,6 +19,7 @@ import time
 import vlib
 
 LEVEL = "model_checking"
+CLAIMED = True   # set by the lead after review; only claimed checks enter MANIFEST.json
 
 MANIFEST = dict(
     category="model_checking",
@@ -36,7 +37,7 @@ MANIFEST = dict(
 )
 
 FORMS = [("*", "records"), ("* | stats count", "count"), ("* | stats count by g", "count_by"), ("* | stats sum(v) by g", "sum_by"),
-         ("v>0 | stats count, max(v)", "count_max")]
+         ("v>0 | stats count, max(v)", "count_max"), ("g=1", "filter")]
 
 
 def g_of(i):
@@ -48,12 +49,16 @@ def check_answer(form, resp, lo, hi):
     hi = number of events flushed by the time everything finished (ids 1..hi may be there). -> list of (kind, what)"""
     bad = []
     kind = form[1]
-    if kind == "records":
+    if kind in ("records", "filter"):
         ids = [h.get("id") for h in (resp.get("hits", {}).get("records") or [])]
+        if kind == "filter":
+            wrong = [i for i in ids if isinstance(i, int) and g_of(i) != 1]
+            if wrong:
+                bad.append(("wrong-match", "ids %s do not satisfy g=1" % wrong[:6]))
         if len(ids) != len(set(ids)):
             dup = sorted(set(i for i in ids if ids.count(i) > 1))
             bad.append(("dup", "events returned more than once: ids %s" % dup[:6]))
-        missing = [i for i in range(1, lo + 1) if i not in ids]
+        missing = [i for i in range(1, lo + 1) if i not in ids and (kind == "records" or g_of(i) == 1)]
         if missing:
             bad.append(("loss", "events flushed before the search began are missing: ids %s" % missing[:6]))
         extra = [i for i in ids if not (isinstance(i, int) and 1 <= i <= hi)]
@@ -136,7 +141,11 @@ def run(chk):
     r2 = vlib.run_tlc("Visibility", "MC_Visibility_nodedup.cfg", timeout=600)
     if "NoDup" not in r2.violated:
         raise vlib.Infra("model sensitivity lost: Visibility without de-duplication no longer violates NoDup")
-    chk.cov["model_sensitivity"] = "Dedup=FALSE (the pinned commit) violates NoDup, as reproduced on the real code before the fix"
+    r3 = vlib.run_tlc("Visibility", "MC_Visibility_norecheck.cfg", timeout=600)
+    if "NoLoss" not in r3.violated:
+        raise vlib.Infra("model sensitivity lost: Visibility without the re-check no longer violates NoLoss")
+    chk.cov["model_sensitivity"] = ("Dedup=FALSE violates NoDup and Recheck=FALSE violates NoLoss in the model; both were "
+                                    "reproduced on the pinned commit by forced interleavings before the fix: commits")
     beh, rg = vlib.tlc_generate("Gen_Visibility", "Gen_Visibility.cfg" if quick else "Gen_Visibility_deep.cfg", timeout=1200)
     chk.add_tlc("Gen_Visibility", rg, "interleaving generation")
     scheds = sorted(set(tuple(b["steps"]) for b in beh))
@@ -200,8 +209,8 @@ def run(chk):
         "data races (Go memory model) are not decided by this check",
     ]
     chk.describe(rule="TLC enumerates every interleaving of writer steps (ingest 1-2, flush visible/end, rotation meta/remove/end) "
-                      "with the query's three steps; a seeded sample (quick) or all (thorough) of those where the query overlaps a "
-                      "flush or rotation is forced on the real goroutines, rotating over 5 query forms; non-trivial = fully forced "
+                      "with the query's four steps (two listings, unrotated check, search); a seeded sample (quick) or all (thorough) of those where the query overlaps a "
+                      "flush or rotation is forced on the real goroutines, rotating over 6 query forms; non-trivial = fully forced "
                       "and overlapping", exhaustive=False)
 
 
